@@ -2,7 +2,12 @@
 //!
 //! Three sub-cases share one `Case` enum:
 //!  * `Image`  — `Image::quantize` on generated images (alpha, background, cropped views,
-//!    both dithering settings, requested sizes 1,2,7,8,9,16,255,256,1000 …),
+//!    transposed / strided views of the backing buffer, both dithering settings, requested
+//!    sizes 1,2,7,8,9,16,255,256,1000 …).  A case is a short HISTORY of quantisations on one
+//!    thread: 0-2 prelude quantisations (another picture, or the picture under test with another
+//!    background / palette size / dither flag) and then the picture under test.  Every image
+//!    case runs on a thread of its own, so the history of the thread is exactly the case's
+//!    history; every quantisation of the history is held to the whole oracle,
 //!  * `Lookup` — `ColorPalette::find` on generated palettes of 1..=512 opaque colours against
 //!    a brute-force minimum of the squared Euclidean RGB distance,
 //!  * `Octree` — `OcTree::{insert, prune_until, build_palette, find}`.
@@ -57,6 +62,49 @@ pub struct ImageCase {
     pub dither: bool,
     /// background; `None` = library default, only used when every pixel is opaque
     pub bg: Option<[u8; 4]>,
+    /// the image is a strided and/or transposed view of the (cropped) backing buffer
+    #[serde(default)]
+    pub strides: Option<Strides>,
+    /// quantisations performed on the same thread before the picture under test (at most 2)
+    #[serde(default)]
+    pub prelude: Vec<Prelude>,
+}
+
+/// Every `rows`-th row and every `cols`-th column (each clamped to 1..=4) of the cropped region,
+/// then optionally transposed (rows of the image are columns of the buffer: `row_stride` 1 or
+/// `cols`, `col_stride` a multiple of the backing width).  `{1, 1, true}` is built with the
+/// library's own `Image::new(view.transpose())`, everything else with `Image::from_parts` and
+/// an explicit `Shape`.
+#[derive(Clone, Copy, Debug, PartialEq, Eq, Serialize, Deserialize)]
+pub struct Strides {
+    pub rows: u8,
+    pub cols: u8,
+    pub transposed: bool,
+}
+
+/// An earlier quantisation on the thread that quantises the picture under test.
+#[derive(Clone, Debug, Serialize, Deserialize)]
+pub enum Prelude {
+    /// another picture: `w x h` (clamped to 1..=512 x 1..=16) pixels, pixel i = 24 bits of
+    /// `mix(i, salt)` (practically all distinct), opaque unless `translucent` (then about half
+    /// of the pixels carry a pseudo-random alpha)
+    Other {
+        w: usize,
+        h: usize,
+        salt: u32,
+        translucent: bool,
+        psize: usize,
+        dither: bool,
+        bg: Option<[u8; 4]>,
+    },
+    /// the picture under test itself (the same `Image` object, or with `copy` an equal picture
+    /// in a fresh row-major buffer); `None` = the parameter of the case
+    Same {
+        copy: bool,
+        psize: Option<usize>,
+        dither: Option<bool>,
+        bg: Option<[u8; 4]>,
+    },
 }
 
 #[derive(Clone, Debug, Serialize, Deserialize)]
@@ -158,16 +206,65 @@ fn psize_label(p: usize) -> String {
 // ---------------------------------------------------------------------------------------
 // oracle: image quantisation
 
-fn check_image(c: &ImageCase) -> Outcome {
-    ensure!(
-        c.w >= 1 && c.h >= 1 && !c.pool.is_empty() && c.psize >= 1,
-        "harness/bad-case",
-        "outside the domain: {:?}",
-        (c.w, c.h, c.pool.len(), c.psize)
-    );
+/// Run `f` on a thread of its own (fresh thread-local state of the library).
+fn on_fresh_thread<T: Send>(f: impl FnOnce() -> T + Send) -> Result<T, Fail> {
+    std::thread::scope(|s| {
+        let h = std::thread::Builder::new()
+            .stack_size(16 << 20)
+            .name("c13-case".into())
+            .spawn_scoped(s, f)
+            .map_err(|e| Fail::new("inconclusive/cannot-spawn-thread", format!("{e}")))?;
+        h.join()
+            .map_err(|_| Fail::new("harness/case-thread-panicked", "the oracle itself panicked".to_string()))
+    })
+}
+
+/// one quantisation of a case's history
+struct Step {
+    img: Image,
+    /// the pixels the image shows, row-major
+    visible: Vec<RGBA>,
+    psize: usize,
+    dither: bool,
+    bg: Option<[u8; 4]>,
+    descr: String,
+    /// the image is the case's non-row-contiguous view of the backing buffer
+    noncontig: bool,
+}
+
+struct StepInfo {
+    k: usize,
+    distinct: usize,
+    subsampled: bool,
+    lossless_required: bool,
+    has_alpha: bool,
+}
+
+/// which quantisations of the history are executed
+#[derive(Clone, Copy, PartialEq, Eq)]
+enum Sel {
+    All,
+    /// only step `.0`; with `.1` its picture is first copied into a fresh row-major buffer
+    Only(usize, bool),
+}
+
+struct Geometry {
+    height: usize,
+    width: usize,
+    start: usize,
+    row_stride: usize,
+    col_stride: usize,
+    cropped: bool,
+}
+
+fn contiguous_image(px: &[RGBA], height: usize, width: usize) -> Image {
+    Image::from_parts(Arc::from(px.to_vec()), Shape::from(Size::new(height, width)))
+}
+
+/// The picture under test: library image, the pixels it shows (row-major) and its geometry.
+fn build_view(c: &ImageCase, contiguous: bool) -> Result<(Image, Vec<RGBA>, Geometry), Fail> {
     let (w, h) = (c.w, c.h);
     let backing: Vec<RGBA> = (0..w * h).map(|i| rgba4(c.pixel(i))).collect();
-    let full = Image::from_parts(Arc::from(backing.clone()), Shape::from(Size::new(h, w)));
     // normalise the crop (monotone clamps, so shrunk cases stay valid)
     let (r0, r1, c0, c1) = match c.crop {
         None => (0, h, 0, w),
@@ -178,31 +275,76 @@ fn check_image(c: &ImageCase) -> Outcome {
         }
     };
     let cropped = (r0, r1, c0, c1) != (0, h, 0, w);
-    let img = if c.crop.is_some() {
+    let (sr, sc, tr) = match c.strides {
+        None => (1, 1, false),
+        Some(s) => ((s.rows as usize).clamp(1, 4), (s.cols as usize).clamp(1, 4), s.transposed),
+    };
+    let (mut height, mut width) = ((r1 - r0).div_ceil(sr), (c1 - c0).div_ceil(sc));
+    let (mut row_stride, mut col_stride) = (w * sr, sc);
+    if tr {
+        std::mem::swap(&mut height, &mut width);
+        std::mem::swap(&mut row_stride, &mut col_stride);
+    }
+    let start = r0 * w + c0;
+    let visible: Vec<RGBA> = (0..height)
+        .flat_map(|r| (0..width).map(move |col| (r, col)))
+        .map(|(r, col)| backing[start + r * row_stride + col * col_stride])
+        .collect();
+    let geo = Geometry { height, width, start, row_stride, col_stride, cropped };
+    if contiguous {
+        return Ok((contiguous_image(&visible, height, width), visible, geo));
+    }
+    let full = Image::from_parts(Arc::from(backing), Shape::from(Size::new(h, w)));
+    let plain = if c.crop.is_some() {
         guard_val(|| full.crop(r0..r1, c0..c1))?
     } else {
-        full
+        full.clone()
     };
-    let (vh, vw) = (r1 - r0, c1 - c0);
     ensure!(
-        img.height() == vh && img.width() == vw,
+        plain.height() == r1 - r0 && plain.width() == c1 - c0,
         "image/crop-view-size",
         "crop rows {r0}..{r1} cols {c0}..{c1} of a {h}x{w} image has size {:?}",
+        plain.size()
+    );
+    let img = match c.strides {
+        None => plain,
+        // module hand-off of the library: `Image::new` keeps the shape of the surface
+        Some(_) if sr == 1 && sc == 1 && tr => guard_val(|| Image::new(plain.transpose()))?,
+        Some(_) => Image::from_parts(
+            full.data().into(),
+            Shape {
+                start,
+                end: start + (height - 1) * row_stride + (width - 1) * col_stride + 1,
+                width,
+                height,
+                row_stride,
+                col_stride,
+            },
+        ),
+    };
+    ensure!(
+        img.height() == height && img.width() == width,
+        "image/view-size",
+        "view (crop rows {r0}..{r1} cols {c0}..{c1}, strides {:?}) of a {h}x{w} image has size {:?}, expected {height}x{width}",
+        c.strides,
         img.size()
     );
+    Ok((img, visible, geo))
+}
 
-    // expected composited image (row-major over the view)
-    let visible: Vec<RGBA> = (0..vh)
-        .flat_map(|r| (0..vw).map(move |col| (r, col)))
-        .map(|(r, col)| backing[(r0 + r) * w + c0 + col])
-        .collect();
+/// The whole oracle for one quantisation.
+fn check_step(st: &Step) -> Result<StepInfo, Fail> {
+    let (vh, vw) = (st.img.height(), st.img.width());
+    let visible = &st.visible;
+    let descr = &st.descr;
     let has_alpha = visible.iter().any(|p| p.to_rgba()[3] < 255);
     // `None` background is only passed when no pixel needs compositing
-    let bg_arg: Option<RGBA> = match c.bg {
+    let bg_arg: Option<RGBA> = match st.bg {
         Some(b) => Some(rgba4(b)),
         None if has_alpha => Some(RGBA::new(0, 0, 0, 255)),
         None => None,
     };
+    // expected composited image (row-major over the view)
     let comp: Vec<Rgb> = visible
         .iter()
         .map(|p| {
@@ -214,11 +356,7 @@ fn check_image(c: &ImageCase) -> Outcome {
         })
         .collect();
 
-    let descr = format!(
-        "view {vh}x{vw} (backing {h}x{w}, crop {:?}) psize={} dither={} bg={:?}",
-        c.crop, c.psize, c.dither, c.bg
-    );
-    let out = guard_val(|| img.quantize(c.psize, c.dither, bg_arg))?;
+    let out = guard_val(|| st.img.quantize(st.psize, st.dither, bg_arg))?;
     let Some((pal, q)) = out else {
         return Err(Fail::new(
             "image/none-for-nonempty",
@@ -234,10 +372,10 @@ fn check_image(c: &ImageCase) -> Outcome {
         pal.size()
     );
     ensure!(
-        k <= c.psize.max(8),
+        k <= st.psize.max(8),
         "image/palette-too-large",
         "palette has {k} colours, allowed max(requested, 8) = {}: {descr}",
-        c.psize.max(8)
+        st.psize.max(8)
     );
     ensure!(
         q.height() == vh && q.width() == vw,
@@ -247,8 +385,8 @@ fn check_image(c: &ImageCase) -> Outcome {
     );
 
     let distinct: HashSet<Rgb> = comp.iter().copied().collect();
-    let subsampled = (vh * vw) / (c.psize * 100) >= 2;
-    let lossless_required = distinct.len() <= c.psize && !subsampled;
+    let subsampled = (vh * vw) / (st.psize * 100) >= 2;
+    let lossless_required = distinct.len() <= st.psize && !subsampled;
     let mut cache: HashMap<Rgb, i32> = HashMap::new();
     for r in 0..vh {
         for col in 0..vw {
@@ -264,7 +402,7 @@ fn check_image(c: &ImageCase) -> Outcome {
                 "index {i} at ({r},{col}) but the palette has {k} colours: {descr}"
             );
             let want = comp[r * vw + col];
-            if !c.dither {
+            if !st.dither {
                 let best = *cache.entry(want).or_insert_with(|| min_d2(&cols, want));
                 let got = d2(cols[i], want);
                 ensure!(
@@ -277,32 +415,224 @@ fn check_image(c: &ImageCase) -> Outcome {
             if lossless_required {
                 ensure!(
                     cols[i] == want,
-                    if c.dither { "image/lossless/dither" } else { "image/lossless/nodither" },
+                    if st.dither { "image/lossless/dither" } else { "image/lossless/nodither" },
                     "{} distinct colours fit the requested {} and the image is not subsampled, but pixel ({r},{col}) composited {want:?} became palette[{i}]={:?}: {descr}",
                     distinct.len(),
-                    c.psize,
+                    st.psize,
                     cols[i]
                 );
             }
         }
     }
+    Ok(StepInfo {
+        k,
+        distinct: distinct.len(),
+        subsampled,
+        lossless_required,
+        has_alpha,
+    })
+}
 
-    let lossy = distinct.len() > k;
+/// Executes the selected quantisations of the case's history on the current thread.
+/// Err = (index of the failing step, that step shows the case's non-contiguous view, failure).
+fn run_history(c: &ImageCase, sel: Sel) -> Result<Pass, (usize, bool, Fail)> {
+    let contiguous = matches!(sel, Sel::Only(_, true));
+    let (img, visible, geo) = build_view(c, contiguous).map_err(|f| (usize::MAX, false, f))?;
+    let (vh, vw) = (geo.height, geo.width);
+    let noncontig = geo.col_stride != 1 && vw >= 2 && !contiguous;
+    let view_descr = format!(
+        "view {vh}x{vw} (backing {}x{}, crop {:?}, start {} row_stride {} col_stride {}{})",
+        c.h,
+        c.w,
+        c.crop,
+        geo.start,
+        geo.row_stride,
+        geo.col_stride,
+        match c.strides {
+            Some(s) if contiguous => format!(", {s:?} copied into a row-major buffer"),
+            Some(s) => format!(", {s:?}"),
+            None => String::new(),
+        }
+    );
+    let preludes: Vec<&Prelude> = c.prelude.iter().take(2).collect();
+    let n = preludes.len() + 1;
+    let mut steps: Vec<Step> = Vec::with_capacity(n);
+    for p in &preludes {
+        steps.push(match p {
+            Prelude::Other { w, h, salt, translucent, psize, dither, bg } => {
+                let (pw, ph) = ((*w).clamp(1, 512), (*h).clamp(1, 16));
+                let px: Vec<RGBA> = (0..pw * ph)
+                    .map(|i| {
+                        let z = mix(i as u64, *salt);
+                        let a = if *translucent && (z >> 24) & 1 == 1 { (z >> 32) as u8 } else { 255 };
+                        RGBA::new(z as u8, (z >> 8) as u8, (z >> 16) as u8, a)
+                    })
+                    .collect();
+                Step {
+                    img: contiguous_image(&px, ph, pw),
+                    visible: px,
+                    psize: (*psize).max(1),
+                    dither: *dither,
+                    bg: *bg,
+                    descr: format!(
+                        "another picture {ph}x{pw} (pixel i = mix(i, {salt}){}) psize={} dither={} bg={:?}",
+                        if *translucent { ", partly translucent" } else { "" },
+                        (*psize).max(1),
+                        dither,
+                        bg
+                    ),
+                    noncontig: false,
+                }
+            }
+            Prelude::Same { copy, psize, dither, bg } => {
+                let psize = psize.unwrap_or(c.psize).max(1);
+                let dither = dither.unwrap_or(c.dither);
+                let bg = bg.or(c.bg);
+                Step {
+                    img: if *copy { contiguous_image(&visible, vh, vw) } else { img.clone() },
+                    visible: visible.clone(),
+                    psize,
+                    dither,
+                    bg,
+                    descr: format!(
+                        "{} {view_descr} psize={psize} dither={dither} bg={bg:?}",
+                        if *copy { "an equal picture in a fresh row-major buffer:" } else { "the same image object:" }
+                    ),
+                    noncontig: noncontig && !*copy,
+                }
+            }
+        });
+    }
+    steps.push(Step {
+        img,
+        visible,
+        psize: c.psize,
+        dither: c.dither,
+        bg: c.bg,
+        descr: format!("{view_descr} psize={} dither={} bg={:?}", c.psize, c.dither, c.bg),
+        noncontig,
+    });
+
+    let mut last = None;
+    let mut done: Vec<String> = Vec::new();
+    for (k, st) in steps.iter().enumerate() {
+        if let Sel::Only(only, _) = sel {
+            if only != k {
+                continue;
+            }
+        }
+        let info = check_step(st).map_err(|f| {
+            let msg = if done.is_empty() {
+                format!("{} [first quantisation on a fresh thread]", f.msg)
+            } else {
+                format!(
+                    "{} [quantisation {} of {n} on this thread; quantised before it, in order: {}]",
+                    f.msg,
+                    k + 1,
+                    done.join(" | ")
+                )
+            };
+            (k, st.noncontig, Fail::new(f.sig, msg))
+        })?;
+        done.push(st.descr.clone());
+        last = Some(info);
+    }
+    let Some(info) = last else {
+        return Err((usize::MAX, false, Fail::new("harness/bad-case", "no step selected".to_string())));
+    };
+
+    // labels describe the picture under test (the last step) and the history before it
+    let same_other_bg = preludes.last().is_some_and(|p| match p {
+        Prelude::Same { psize, bg: Some(b), .. } => psize.is_none_or(|p| p == c.psize) && Some(*b) != c.bg,
+        _ => false,
+    });
+    let lossy = info.distinct > info.k;
     Ok(Pass::new(lossy)
         .label("image")
         .label(if c.dither { "image/dither" } else { "image/nodither" })
         .label(format!("image/{}", psize_label(c.psize)))
         .label_if(lossy, "image/lossy(distinct>palette)")
-        .label_if(distinct.len() > c.psize.max(8) && !subsampled, "image/pruned")
-        .label_if(subsampled, "image/subsampled")
-        .label_if(lossless_required, "image/lossless-checked")
-        .label_if(lossless_required && distinct.len() >= 2, "image/lossless-checked>=2colours")
-        .label_if(cropped, "image/cropped")
-        .label_if(has_alpha, "image/alpha")
+        .label_if(info.distinct > c.psize.max(8) && !info.subsampled, "image/pruned")
+        .label_if(info.subsampled, "image/subsampled")
+        .label_if(info.lossless_required, "image/lossless-checked")
+        .label_if(info.lossless_required && info.distinct >= 2, "image/lossless-checked>=2colours")
+        .label_if(geo.cropped, "image/cropped")
+        .label_if(info.has_alpha, "image/alpha")
         .label_if(c.bg.is_none(), "image/bg=default")
         .label_if(matches!(c.bg, Some(b) if b[3] < 255), "image/bg=translucent")
-        .label_if(k == c.psize.max(8), "image/palette=max")
-        .label_if(vh * vw > 4096, "image/large"))
+        .label_if(info.k == c.psize.max(8), "image/palette=max")
+        .label_if(vh * vw > 4096, "image/large")
+        .label_if(matches!(c.strides, Some(s) if s.transposed), "image/view=transposed")
+        .label_if(matches!(c.strides, Some(s) if s.rows.clamp(1, 4) > 1 || s.cols.clamp(1, 4) > 1), "image/view=strided")
+        .label_if(noncontig, "image/view=rows-not-contiguous(col_stride>1,width>=2)")
+        .label_if(noncontig && c.strides.is_some_and(|s| s.rows == 1 && s.cols == 1), "image/view=Image::new(transpose)")
+        .label_if(noncontig && info.lossless_required && info.distinct >= 2, "image/view=rows-not-contiguous+lossless-checked>=2colours")
+        .label_if(n > 1, "image/history(prelude>=1)")
+        .label_if(n > 2, "image/history(prelude=2)")
+        .label_if(preludes.iter().any(|p| matches!(p, Prelude::Other { .. })), "image/history/other-picture-before")
+        .label_if(preludes.iter().any(|p| matches!(p, Prelude::Other { dither: true, .. })), "image/history/other-picture-dithered-before")
+        .label_if(preludes.iter().any(|p| matches!(p, Prelude::Same { .. })), "image/history/same-picture-before")
+        .label_if(preludes.iter().any(|p| matches!(p, Prelude::Same { copy: true, .. })), "image/history/equal-copy-before")
+        .label_if(same_other_bg, "image/history/same-picture-same-psize-other-bg-just-before")
+        .label_if(same_other_bg && info.has_alpha, "image/history/same-picture-same-psize-other-bg-just-before+alpha")
+        .label_if(same_other_bg && info.has_alpha && info.lossless_required, "image/history/same-picture-same-psize-other-bg-just-before+alpha+lossless-checked")
+        .label_if(n > 1 && c.dither && info.lossless_required && info.distinct >= 2, "image/history+dither+lossless-checked>=2colours"))
+}
+
+/// `image/<clause>` -> `image/<class>/<clause>`; other signatures (panics) are kept
+fn reclass(f: Fail, class: &str, note: String) -> Fail {
+    let sig = match f.sig.strip_prefix("image/") {
+        Some(rest) => format!("image/{class}/{rest}"),
+        None => f.sig.clone(),
+    };
+    Fail::new(sig, format!("{} — {note}", f.msg))
+}
+
+fn check_image(c: &ImageCase) -> Outcome {
+    ensure!(
+        c.w >= 1 && c.h >= 1 && !c.pool.is_empty() && c.psize >= 1,
+        "harness/bad-case",
+        "outside the domain: {:?}",
+        (c.w, c.h, c.pool.len(), c.psize)
+    );
+    // the case's history is the whole history of the thread that executes it
+    let (k, noncontig, f) = match on_fresh_thread(|| run_history(c, Sel::All))? {
+        Ok(pass) => return Ok(pass),
+        Err(e) => e,
+    };
+    if k == usize::MAX || f.sig.starts_with("inconclusive/") || f.sig.starts_with("harness/") {
+        return Err(f);
+    }
+    // differential diagnosis (only ever reached on a failure): which class does it belong to?
+    if k > 0 {
+        // the same quantisation as the first one of a fresh thread
+        match on_fresh_thread(|| run_history(c, Sel::Only(k, false)))? {
+            Ok(_) => {
+                return Err(reclass(
+                    f,
+                    "depends-on-earlier-quantisation",
+                    "the same quantisation alone, as the first one of a fresh thread, satisfies every clause: the result depends on what the thread quantised before".to_string(),
+                ));
+            }
+            Err((_, _, g)) if g.sig.starts_with("inconclusive/") => return Err(g),
+            Err(_) => {}
+        }
+    }
+    if noncontig {
+        // the same picture copied into a row-major buffer
+        match on_fresh_thread(|| run_history(c, Sel::Only(k, true)))? {
+            Ok(_) => {
+                return Err(reclass(
+                    f,
+                    "non-contiguous-view",
+                    "the same pixels copied into a fresh row-major buffer satisfy every clause: the result depends on the memory layout of the view (col_stride != 1)".to_string(),
+                ));
+            }
+            Err((_, _, g)) if g.sig.starts_with("inconclusive/") => return Err(g),
+            Err(_) => {}
+        }
+    }
+    Err(f)
 }
 
 // ---------------------------------------------------------------------------------------
@@ -744,6 +1074,53 @@ fn image_strategy(tier: Tier) -> BoxedStrategy<ImageCase> {
                 narrow_weight => (0..w.saturating_sub(4).max(1), 1usize..=4, 0usize..=1)
                     .prop_map(move |(c0, cw, r0)| Some([r0.min(h - 1), h, c0, (c0 + cw).min(w)])),
             ];
+            // non-row-major views of the (cropped) backing buffer: 16 cases of 100
+            let strides = prop_oneof![
+                84 => Just(None),
+                6 => Just(Some(Strides { rows: 1, cols: 1, transposed: true })),
+                10 => (1u8..=3, 1u8..=3, any::<bool>())
+                    .prop_map(|(rows, cols, transposed)| Some(Strides { rows, cols, transposed })),
+            ];
+            // history of the thread before the picture under test: 25 cases of 100
+            let other = (
+                prop_oneof![3 => 24usize..=300, 1 => 1usize..=24],
+                1usize..=6,
+                any::<u32>(),
+                prop::bool::weighted(0.25),
+                prop_oneof![
+                    4 => proptest::sample::select(vec![1usize, 2, 8, 16, 256]),
+                    1 => psize_strategy(),
+                ],
+                prop::bool::weighted(0.8),
+                bg_strategy(),
+            )
+                .prop_map(|(w, h, salt, translucent, psize, dither, bg)| Prelude::Other {
+                    w,
+                    h,
+                    salt,
+                    translucent,
+                    psize,
+                    dither,
+                    bg,
+                });
+            let same = (
+                any::<bool>(),
+                proptest::option::weighted(0.3, psize_strategy()),
+                proptest::option::weighted(0.5, any::<bool>()),
+                prop_oneof![1 => Just(None), 3 => bg_strategy()],
+            )
+                .prop_map(|(copy, psize, dither, bg)| Prelude::Same { copy, psize, dither, bg });
+            // the picture under test is only quantised an extra time when it is small
+            let one = if area <= 4096 {
+                prop_oneof![1 => other, 1 => same].boxed()
+            } else {
+                other.boxed()
+            };
+            let prelude = prop_oneof![
+                75 => Just(Vec::new()),
+                17 => vec(one.clone(), 1),
+                8 => vec(one, 2),
+            ];
             (
                 rgb_set(pool_len),
                 alphas,
@@ -751,8 +1128,10 @@ fn image_strategy(tier: Tier) -> BoxedStrategy<ImageCase> {
                 crop,
                 any::<bool>(),
                 bg_strategy(),
+                strides,
+                prelude,
             )
-                .prop_map(move |(rgb, alphas, layout, crop, dither, bg)| {
+                .prop_map(move |(rgb, alphas, layout, crop, dither, bg, strides, prelude)| {
                     let pool: Vec<[u8; 4]> = rgb
                         .iter()
                         .zip(alphas.iter())
@@ -774,6 +1153,8 @@ fn image_strategy(tier: Tier) -> BoxedStrategy<ImageCase> {
                         psize: p,
                         dither,
                         bg,
+                        strides,
+                        prelude,
                     }
                 })
         })
@@ -1025,7 +1406,7 @@ impl Property for C13 {
     }
 
     fn rule(&self) -> String {
-        "three sub-cases (weights 10:3:3). IMAGE: requested size from {1,2,7,8,9,16,255,256,1000} (plus 1..=1200 at low weight); view 1x1..48x48 or an area on the sampling threshold 200*requested (-1 row / exact / +1 row; up to ~200k px in thorough); pixels = pool[layout(i)], pool of 1..=4096 RGBA colours drawn from {uniform, clustered in the low 1-4 bits, multi-cluster, single-axis collinear, lattice levels, few colours} with optional exact duplicates, pool length chosen relative to the requested size (<= requested, = requested, requested+1, many, = area); alpha all-opaque or mixed {255,0,any,254,1}; background none/opaque/translucent/alpha 0; 30% cropped views of a larger backing image, among them narrow column windows (1-4 columns, all rows) of a wide backing image (64-400 columns) whose span in the backing buffer exceeds the sampling threshold while their own area is far below it; dithering on/off. LOOKUP: palette of 1..=512 opaque colours from the same models (duplicates, collinear, clustered, lattice), queries = up to 192 uniform 24-bit + up to 192 near a member (+-3 / +-40 per channel) + (75%) every member and its 8 neighbours at +-1 (each axis and the diagonal). OCTREE: 1..=1500 colours from the same models, prune_until(n) with n as above, then (25%) 1..=64 more insertions and a second prune_until. SWEEP: every one of the 2^24 query colours against fixed palettes (quick: ANSI 16; thorough: + xterm-256, single, two identical, grey ramp x2 (512), 8x8x8 block (512), 4x4x4 lattice x2, and 4 generated palettes of 3/64/255/512 colours). \
+        "three sub-cases (weights 10:3:3). IMAGE: requested size from {1,2,7,8,9,16,255,256,1000} (plus 1..=1200 at low weight); view 1x1..48x48 or an area on the sampling threshold 200*requested (-1 row / exact / +1 row; up to ~200k px in thorough); pixels = pool[layout(i)], pool of 1..=4096 RGBA colours drawn from {uniform, clustered in the low 1-4 bits, multi-cluster, single-axis collinear, lattice levels, few colours} with optional exact duplicates, pool length chosen relative to the requested size (<= requested, = requested, requested+1, many, = area); alpha all-opaque or mixed {255,0,any,254,1}; background none/opaque/translucent/alpha 0; 30% cropped views of a larger backing image, among them narrow column windows (1-4 columns, all rows) of a wide backing image (64-400 columns) whose span in the backing buffer exceeds the sampling threshold while their own area is far below it; in 16 cases of 100 the image is a view of the (cropped) backing buffer that is not row-major: the library's own `Image::new(view.transpose())` (6 of 100: row_stride 1, col_stride = backing width) or `Image::from_parts` with an explicit Shape taking every 1st-3rd row and every 1st-3rd column, transposed or not (10 of 100); dithering on/off. HISTORY: every image case is executed on a thread of its own and is a history of 1-3 quantisations on that thread: in 25 cases of 100 the picture under test is preceded by one (17) or two (8) other quantisations — another picture (24-300, rarely 1-24, columns x 1-6 rows of practically distinct pseudo-random colours, a quarter of them partly translucent, requested size mostly from {1,2,8,16,256}, dithering on in 8 of 10, any background) or, when the backing image has at most 4096 pixels, the picture under test itself (the same Image object or an equal picture in a fresh row-major buffer) with another background (3 of 4), another requested size (3 of 10) and/or another dither flag; every quantisation of the history is held to the whole image oracle. LOOKUP: palette of 1..=512 opaque colours from the same models (duplicates, collinear, clustered, lattice), queries = up to 192 uniform 24-bit + up to 192 near a member (+-3 / +-40 per channel) + (75%) every member and its 8 neighbours at +-1 (each axis and the diagonal). OCTREE: 1..=1500 colours from the same models, prune_until(n) with n as above, then (25%) 1..=64 more insertions and a second prune_until. SWEEP: every one of the 2^24 query colours against fixed palettes (quick: ANSI 16; thorough: + xterm-256, single, two identical, grey ramp x2 (512), 8x8x8 block (512), 4x4x4 lattice x2, and 4 generated palettes of 3/64/255/512 colours). \
          non-trivial = image: more distinct composited colours than palette entries (quantisation is lossy); lookup: palette has >= 2 entries; octree: more distinct colours than max(n,8) (pruning happens)".into()
     }
 
@@ -1038,6 +1419,9 @@ impl Property for C13 {
             "ties are never resolved: a lookup is correct iff the squared distance of the returned colour equals the brute-force minimum over the supplied palette, and colors()[index] equals the returned colour".into(),
             "OcTree leaf count is observed as build_palette().len(); index bijection is observed through OcTree::find of the inserted colours (every index in 0..len is returned for some inserted colour, each returned index < len and palette[index] == returned colour); find returning None for a pruned colour is allowed".into(),
             "requested palette sizes above 1200 and images above ~210k pixels are not generated".into(),
+            "an image is whatever `Image::new` / `Image::from_parts` / `Image::crop` hand out: a buffer plus a Shape (start, height, width, row_stride, col_stride — public fields, the crate documents that elements are addressed through `Shape::offset` only); the pixel at (row, col) is data[start + row*row_stride + col*col_stride]. Transposed (`Surface::transpose`, kept by `Image::new`) and strided shapes are therefore images like cropped views ('for all images … cropped views') and every clause applies to the pixels they show; `Shape::end` is set to the offset of the last pixel + 1 as the library's own view/transpose do".into(),
+            "the statement quantifies over images, requested sizes, dither settings and backgrounds, not over what the calling thread did before: the result of a quantisation must satisfy every clause whatever was quantised earlier on the same thread (another picture, or the same / an equal picture with another background, size or dither flag). Each image case runs on a fresh thread, so its 0-2 prelude quantisations are the complete history; preludes are themselves checked with the whole oracle".into(),
+            "classification of a failure (only evaluated after a clause has failed, never turns a pass into a failure): if the failing quantisation is not the first of its thread and the identical quantisation alone on a fresh thread satisfies every clause, the signature becomes image/depends-on-earlier-quantisation/<clause>; otherwise, if the image is a view with col_stride != 1 and the same pixels copied into a row-major buffer satisfy every clause, it becomes image/non-contiguous-view/<clause>; otherwise the clause's own signature is reported".into(),
         ]
     }
 
